@@ -136,3 +136,7 @@ let () = register "c19keep" (function
      | Raise _ -> "ERROR not a message"
      | Ok m -> str_m str_bool (filter_keep dist f m) ^ " | " ^ str_bool (crit_satisfies dist c m))
   | _ -> "ERROR bad arguments for c19keep")
+
+(* the recorded witness of C19_nonefilter_unrepaired_raises, in the token syntax of c19:  c19witness  ->  <msg> *)
+let () = register "c19witness" (function
+  | _ -> str_msg filter_truncated_type18)
